@@ -28,6 +28,7 @@ def scenarios(tier):
     add('par1-2items-exhaust', par=1, items=2, num_steps=255, depths=(70, 80, 90, 100))
     add('par2-shared-1item', par=2, items=1, num_steps=255, depths=(70, 80, 90, 100, 110))
     add('par2-shared-2items', par=2, items=2, num_steps=255, depths=(80, 90, 100, 110, 120))
+    add('par2-independent-0item', par=2, items=0, shared=False, num_steps=255, depths=(40, 50, 60, 70))
     add('par2-independent-1item', par=2, items=1, shared=False, num_steps=255, depths=(70, 80, 90, 100, 110))
     add('par2-shared-2items-earlystop1', par=2, items=2, num_steps=1, depths=(60, 70, 80, 90, 100))
     add('par2-shared-2items-fail-sym', par=2, items=2, num_steps=255, fail={0: (0, 2)}, depths=(70, 80, 90, 100, 110))
